@@ -31,11 +31,11 @@ add("C08", "exploration",
     "bounded-exhaustive round-trip enumeration (explicit-state, stateless)", "DESIGN.md §5 C08", "E-ENUM")
 
 add("C04", "model_checking",
-    "Explicit enumeration of conformant V9 streams (histories of 1..3 parse_bytes calls on one parser) from finite menus - every field type 1..=520 x supported width x value menu, all class-representative templates of <=4 (thorough 5) fields, all scope/option lists, all flowset sequences of <=3 (thorough 5) over an 11-set menu, template delivered in the same packet / same buffer / an earlier call - each call judged against an independent RFC 3954 reference decoder with a latest-wins reference cache.",
+    "Explicit enumeration of conformant V9 streams (histories of 1..3 parse_bytes calls on one parser) from finite menus - every field type 1..=520 x supported width x value menu, all class-representative templates of <=4 (thorough 5) fields, all scope/option lists, all flowset sequences of <=3 (thorough 5) over a 12-set menu, template delivered in the same packet / same buffer / an earlier call, and record counts around every power of two up to the datagram limit - each call judged against an independent RFC 3954 reference decoder with a latest-wins reference cache.",
     "trusted: refmodel::ref_v9/decode; the field-number -> (name, class) table is the library's (pinned by its snapshot tests); values outside the value menus and templates longer than the bound are not covered",
     "bounded-exhaustive enumeration of call histories vs reference model (explicit-state)", "DESIGN.md §5 C04", "E-ENUM")
 add("C05", "model_checking",
-    "Explicit enumeration of conformant IPFIX streams (1..3 calls): every IE 0..=520 (+enterprise variants) x supported width x value menu, variable-length IEs x every pair of consecutive record lengths from {0,1,2,254,255,300} x short/long prefix, all class-representative templates of <=4 (thorough 5) fields, options templates, 1..=3 template records per set, all set sequences of <=3 (thorough 5) over an 11-set menu incl. data for an undefined id - each call judged against an independent RFC 7011 reference decoder; recorded defects are modelled executably so the strongest remaining relation is still checked.",
+    "Explicit enumeration of conformant IPFIX streams (1..3 calls): every IE 0..=520 (+enterprise variants) x supported width x value menu, variable-length IEs x every pair of consecutive record lengths from {0,1,2,254,255,300} x short/long prefix, all class-representative templates of <=4 (thorough 5) fields, options templates, 1..=3 template records per set, all set sequences of <=3 (thorough 5) over a 12-set menu incl. data for an undefined id, and record counts around every power of two up to the message limit - each call judged against an independent RFC 7011 reference decoder; recorded defects are modelled executably so the strongest remaining relation is still checked.",
     "trusted: refmodel::ref_ipfix_sets/decode and the defect models refmodel::Q; IE -> (name, class) table is the library's",
     "bounded-exhaustive enumeration of call histories vs reference model (explicit-state)", "DESIGN.md §5 C05", "E-ENUM")
 
